@@ -161,8 +161,41 @@ def check_malformed(text, ctx) -> None:
         ctx.violation("C20:malformed:accepted", f"{name}({text!r}) returned {r!r} although the string has no digit.digit", case)
 
 
+def deep_stack_probe(ctx) -> None:
+    """Comparison with a string at every remaining stack depth from 1 to 120 frames: the answer is the right one or a RecursionError."""
+    import sys
+
+    from han import obis
+
+    o = obis.Obis.from_string("1-0:1.8.0*255")
+    texts = ("1-0:1.8.0*255", "1.0.1.8.0.255", "1-0:1.8.1*255", "no obis")
+    answers = (True, True, False, False)
+
+    def at_depth(n, fn):
+        if n <= 0:
+            return fn()
+        return at_depth(n - 1, fn)
+
+    limit = sys.getrecursionlimit()
+    import inspect
+
+    base = len(inspect.stack(0))
+    for headroom in range(1, 121):
+        for text, want in zip(texts, answers):
+            try:
+                got = at_depth(limit - base - headroom - 3, lambda: o == text)
+            except RecursionError:
+                ctx.count("deep_stack_recursion_errors")
+                continue
+            ctx.count("deep_stack_answers")
+            if got is not want:
+                ctx.violation("C20:equality:wrong-answer-near-recursion-limit", f"Obis('1-0:1.8.0*255') == {text!r} answered {got!r} with about {headroom} frames of stack left (right answer {want}, or RecursionError)", {"text": text, "groups": [1, 0, 1, 8, 0, 255], "syntax": "deep"})
+                return
+
+
 def run(shard, ctx):
     if shard.get("kind") == "suite":
+        deep_stack_probe(ctx)
         from vf.mon import suite
 
         suite.run_suite(ctx, "C20")
